@@ -129,6 +129,24 @@ def run(ctx):
             comp = (comp[1], comp[0], comp[2])
         compare_variants(ctx, lc, common.spell(patterning.arrange(comp, ctx.rng), ctx.rng))
         ctx.evaluations += 1
+    # a lattice of compositions whose counts share decimal digits (1, 2, 11, 12, 21, 22 of either sign with 5 or 40 neutrals), all asked
+    # in one process, first every composition and then every charge-inverted twin: whatever the library remembers per composition
+    # must tell (11, 2, 40) from (1, 12, 40) from (1, 1, 240)
+    lattice = [(p_, n_, z_) for z_ in (5, 40) for p_ in (1, 2, 11, 12, 21, 22) for n_ in (1, 2, 11, 12, 21, 22)]
+    ctx.rng.shuffle(lattice)
+    asked = []
+    for comp in lattice:
+        s_ = common.spell(patterning.arrange(comp, ctx.rng), ctx.rng)
+        asked.append((comp, s_, query(lc, s_, ["get_deltaMax", "get_kappa"])))
+        ctx.evaluations += 1
+    for comp, s_, b_ in asked:
+        var = invert(s_, ctx.rng)
+        bv = query(lc, var, ["get_deltaMax", "get_kappa"])
+        ctx.evaluations += 1
+        for g in ("get_deltaMax", "get_kappa"):
+            if not same(b_[g], bv[g], False):
+                ctx.violation("inversion-changes-" + g, {"seq": s_, "variant": var, "composition": comp, "asked": "after %d other compositions in this process" % len(asked)},
+                              expected=b_[g], actual=bv[g])
     # lengths next to powers of two (blob counts that are multiples of a chunk size): delta under reversal and inversion
     near = [2 ** k + d for k in (6, 7, 8, 9, 10, 11) for d in (3, 4, 5, 6, 7)]
     for n_ in (near if not ctx.quick else ctx.rng.sample(near, 12) + [517, 518, 1029, 1030]):
